@@ -148,6 +148,40 @@ def p_pairwise_distinct(ip, args, kw, ctx):
     return ip.conj(conj)
 
 
+_DECODE_MEMO = {}
+
+
+def p_decode_padded_utf8(ip, args, kw, ctx):
+    """text whose zero-padded UTF-8 encoding is raw: the source text when raw is utf8(text) ++ zeros (axiom of the codec
+    model), otherwise an opaque string that is a function of the bytes"""
+    from .sym import array_gen, char_fact, fresh_name
+    raw = args[0]
+    if isinstance(raw, bytes):
+        return raw.decode("utf-8").rstrip("\x00")
+    raw = seqops.concretize(Seq.of(raw), ctx)
+    segs = list(raw.segs)
+    # strip literal zero padding
+    while segs and isinstance(segs[-1], Elems) and all((not isz(t)) and t == 0 for t in segs[-1].terms):
+        segs.pop()
+    if not segs:
+        return ""
+    if len(segs) == 1 and isinstance(segs[0], Gen) and segs[0].origin is not None and segs[0].origin[0] == "utf8":
+        ctx.used_models.add("utf-8 codec: decode(encode(s) ++ zeros).rstrip(NUL) == s for s without trailing NUL")
+        return Seq('str', [segs[0].origin[1]])
+    if not raw.fixed():
+        from .interp import Unsupported
+        raise Unsupported("decode_padded_utf8 of symbolic-length bytes")
+    key = tuple(t.get_id() if isz(t) else ("c", t) for t in raw.terms())
+    if key not in _DECODE_MEMO:
+        L = z3.Int(fresh_name("namelen"))
+        g = array_gen(fresh_name("name"), L, (), char_fact)
+        _DECODE_MEMO[key] = (L, g, raw.terms())
+    L, g, keep = _DECODE_MEMO[key]
+    ctx.fact(z3.And(L >= 0, L <= len(key)))
+    ctx.used_models.add("utf-8 codec: the decoded, NUL-stripped text is an (uninterpreted) function of the bytes")
+    return Seq('str', [g])
+
+
 def p_chr_digit(ip, args, kw, ctx):
     d = args[0]
     if not isz(d):
@@ -164,5 +198,5 @@ def install(ip):
     ip.spec_prims.update({
         "crc16": p_crc16, "is_hex": p_is_hex, "amps_of": p_amps_of, "tenths": p_tenths, "utf8": p_utf8,
         "valid_hhmm": p_valid_hhmm, "hh_of": p_hh_of, "mm_of": p_mm_of,
-        "chr_digit": p_chr_digit, "day_bit": p_day_bit, "is_member": p_is_member, "pairwise_distinct": p_pairwise_distinct,
+        "chr_digit": p_chr_digit, "decode_padded_utf8": p_decode_padded_utf8, "day_bit": p_day_bit, "is_member": p_is_member, "pairwise_distinct": p_pairwise_distinct,
     })
